@@ -81,7 +81,9 @@ def compare(ctx, cfg, coal, pg, T, dim_max, rng, label=''):
         exp = vals[-1] - (vals[0] if len(times) == 2 else 0)
         raw = conv.model_moment(drv, cfg, False, True, rewards, times)
         scale = abs(raw[-1]) if k > 1 else abs(exp)
-        tol = 1e-7 * abs(float(exp)) if k == 1 else 1e-6 * float(scale)
+        # a first moment over a window [s, T] is the difference of the accumulations at T and at s: its float error is relative to
+        # the accumulation at T (the raw scale), not to the difference (which is ~1e-14 when everything has coalesced before s)
+        tol = 1e-7 * abs(float(vals[-1])) if k == 1 else 1e-6 * float(scale)
         ctx.case(dict(cfg=cfg, stat=name, T=float(T), model=float(exp), real=obs),
                  (gen.cfg_key(cfg), name) if k_states >= 3 and (n_ep >= 2 or k >= 2) else None)
         ctx.count(f'k{k}'); ctx.count(f'epochs{n_ep}'); ctx.count(cfg['model'][0]); ctx.count(f'demes{len(cfg["n"])}')
